@@ -330,6 +330,17 @@ func Discharge(obls []*Obligation, counts map[*Obligation][]*countDef, cfg RunCo
 	wg.Wait()
 	// second chance for timeouts, one at a time, with a longer budget
 	if cfg.RetryFactor > 1 {
+		// only when few obligations timed out: a slow proof on a loaded machine is one or two of them; many
+		// undecided obligations mean the code changed, and retrying each would only cost time
+		pending := 0
+		for _, j := range jobs {
+			if !j.vacuity && j.o.Verdict == VUnknown && !cfg.NoRetry[j.o.Name] && j.o.Note != "solvers disagree" {
+				pending++
+			}
+		}
+		if pending > 2 {
+			return
+		}
 		for _, j := range jobs {
 			if j.vacuity || j.o.Verdict != VUnknown || cfg.NoRetry[j.o.Name] || len(j.scripts) == 0 {
 				continue
